@@ -100,13 +100,27 @@ def functions():
         df = fa.double_gene_deletion(m, items, items, processes=p)
         return {",".join(sorted(ids)): (float(g), 1.0 if s == "optimal" else 0.0) for ids, g, s in zip(df.ids, df.growth, df.status)}
 
+    def _at_threshold(m, df):
+        """ids whose knock-out growth equals the default threshold (1 % of the optimum) up
+        to solver noise: '<' is decided by rounding there, in any schedule (borderline)."""
+        import math
+
+        thr = 0.01 * m.slim_optimize()
+        out = set()
+        for ids, g in zip(df.ids, df.growth):
+            if not math.isnan(g) and abs(g - thr) <= 1e-6 * max(1.0, abs(thr)):
+                out |= set(ids)
+        return out
+
     def ess_r(m, items, p):
         got = {r.id for r in fa.find_essential_reactions(m, processes=p)}
-        return {r.id: (1.0 if r.id in got else 0.0,) for r in m.reactions}
+        skip = _at_threshold(m, fa.single_reaction_deletion(m, processes=1))
+        return {r.id: (1.0 if r.id in got else 0.0,) for r in m.reactions if r.id not in skip}
 
     def ess_g(m, items, p):
         got = {g.id for g in fa.find_essential_genes(m, processes=p)}
-        return {g.id: (1.0 if g.id in got else 0.0,) for g in m.genes}
+        skip = _at_threshold(m, fa.single_gene_deletion(m, processes=1))
+        return {g.id: (1.0 if g.id in got else 0.0,) for g in m.genes if g.id not in skip}
 
     return {
         "fva": (fva, "reactions", True),
